@@ -301,6 +301,8 @@ func (t *Tree) recover(errp *error) {
 func (t *Tree) startParse(lex *lexer) {
 	t.Root = nil
 	t.lex = lex
+	// Tokens looked ahead by an earlier (failed) parse belong to its text
+	t.peekCount = 0
 }
 
 // stopParse terminates parsing.
